@@ -8,10 +8,11 @@ import NucsProofs.Engine.StackBound
   (`C19_overflow_reported`) — the model has no other way to exceed the height, so no write beyond
   the stack arrays exists in it.
 
-  PARTIAL: (i) the 8-bit stack pointer and the 16-bit index arrays are not modelled as machine
-  integers; that heights above 256 are refused at construction and that problem sizes beyond the
-  16-bit index types raise is established on the implementation by the correspondence
-  (harness/props/C19.py), not proved; (ii) memory corruption itself is outside the model.
+  `C19_pointer_fits_uint8`: with a height ≤ 256 the pointer never leaves the range of `uint8`.
+  PARTIAL: (i) the 16-bit index arrays are not modelled as machine integers; that heights above 256
+  are refused at construction and that problem sizes beyond the 16-bit index types raise is
+  established on the implementation by the correspondence (harness/props/C19.py), not proved;
+  (ii) memory corruption itself is outside the model.
 -/
 namespace Nucs
 
@@ -28,6 +29,20 @@ theorem C19_overflow_reported (P : Problem) (cfg : Config) (fuel : Nat) (s : Sta
 /-- a decision pushes at most two levels -/
 theorem C19_push_at_most_two (h : DomHeur) (costs : List (List Int)) (l : Level) (d : Nat) (b : Branch)
     (hb : runDomHeur h costs l d = some b) : b.alts.length ≤ 2 := runDomHeur_alts_le h costs l d b hb
+
+/-- the 8-bit stack pointer: with a height the constructor accepts (≤ 256, the repair `5e727c0`), the pointer value
+    `stacks_top[0]` (= number of levels below the top) is representable in `uint8` before and after every
+    `solve_one`, i.e. the unsigned 8-bit arithmetic of the code coincides with the model's natural numbers -/
+theorem C19_pointer_fits_uint8 (P : Problem) (cfg : Config) (hbc : cfg.cons = .bc) (hH : cfg.height ≤ 256)
+    (fuel : Nat) (s : State) (r : Option (List Int)) (s' : State) (hh : s.below.length + 1 ≤ cfg.height)
+    (h : solveOne P cfg fuel s = .ok (r, s')) :
+    (UInt8.ofNat s.below.length).toNat = s.below.length ∧ (UInt8.ofNat s'.below.length).toNat = s'.below.length := by
+  have h' := C19_stack_bound P cfg hbc fuel s r s' hh h
+  constructor
+  · simp [UInt8.toNat_ofNat']
+    omega
+  · simp [UInt8.toNat_ofNat']
+    omega
 
 /-- non-vacuity: four Booleans need depth 4; with height 4 the model reports the overflow -/
 example : (solveAll ⟨[(0, 1), (0, 1), (0, 1), (0, 1)], [(0, 0), (1, 0), (2, 0), (3, 0)], []⟩
